@@ -491,6 +491,7 @@ func init() {
 			c.SigningRootProvenance("C08")
 			c.ServicePositions("C08")
 			c.ScatterIndexDiscipline("C08")
+			c.LosslessSplit("C08")
 			c.ScatterPartition("C08")
 			c.RulerPositions("C08")
 			c.HandlerSignature("C08")
